@@ -19,7 +19,12 @@ import DEngine.Model.MiniKv
         `apply_snapshot_stream_from_leader` (chunks of `load_snapshot_data`, `process_snapshot_stream`,
         decompress): data := snapshot data (whatever the node held before), `last_applied := label`.
   * `applyEntry`      — handler `apply_chunk` → engine `apply_chunk` for one entry (data part, MiniKv),
-        File engine also stores the entry's term with the key.
+        File engine also stores the entry's term with the key; lease part (`applyLease`): Insert with TTL
+        registers `now + min(ttl, MAX_TTL_SECS)`, Insert without TTL / Delete / successful CAS unregister.
+  * lease in snapshots — `generate_snapshot_data` stores `lease.to_snapshot()` (File: trailing section,
+        always written; RocksDB: ttl_state.bin), `apply_snapshot_from_file` replaces the node's lease table
+        by `reload` of it (entries with `expire_at > now`), whatever the node's table held before.
+  * `cleanupAfter`    — `lease_background_cleanup` once the clock has advanced (family `ttl` owns the details).
 -/
 namespace DEngine.Snap
 open DEngine.MiniKv
@@ -39,7 +44,22 @@ structure Node where
   terms : AMap := []
   la : Nat := 0
   laTerm : Nat := 0
+  /-- `TtlLease` table: key ↦ expiry second. -/
+  lease : AMap := []
+  /-- logical clock (seconds); every entry of a case is applied at the same instant. -/
+  now : Nat := 1000
 deriving Repr, Inhabited
+
+def maxTtl : Nat := 31536000000
+
+/-- lease bookkeeping of both engines' `apply_chunk`. -/
+def applyLease (now : Nat) (kv : AMap) (lease : AMap) (e : Entry) : AMap :=
+  match e.cmd with
+  | .noop => lease
+  | .put k _ (some t) => set lease k (now + min t maxTtl)
+  | .put k _ none => erase lease k
+  | .del k => erase lease k
+  | .cas k ex _ => if casMatch (get kv k) ex then erase lease k else lease
 
 /-- per-key term bookkeeping of the File engine (`data.insert(key, (value, entry.term))`). -/
 def applyTerms (kv : AMap) (terms : AMap) (e : Entry) : AMap :=
@@ -51,7 +71,8 @@ def applyTerms (kv : AMap) (terms : AMap) (e : Entry) : AMap :=
 
 /-- one entry with log index `idx` applied. -/
 def applyEntry (n : Node) (idx : Nat) (e : Entry) : Node :=
-  { kv := (applyCmd n.kv e.cmd).1, terms := applyTerms n.kv n.terms e, la := idx, laTerm := e.term }
+  { kv := (applyCmd n.kv e.cmd).1, terms := applyTerms n.kv n.terms e, la := idx, laTerm := e.term,
+    lease := applyLease n.now n.kv n.lease e, now := n.now }
 
 /-- apply `es` as entries `from+1, from+2, …`. -/
 def applyFrom (n : Node) (frm : Nat) : List Entry → Node
@@ -72,16 +93,28 @@ structure Snapshot where
   labelTerm : Nat
   kv : AMap
   terms : AMap
+  lease : AMap := []
 deriving Repr, Inhabited
 
 /-- `create_snapshot` on node `n` with `retained_log_entries = ret`. -/
 def createSnapshot (eng : Eng) (ret : Nat) (n : Node) : Snapshot :=
   let idx := n.la - ret
-  { labelIdx := idx, labelTerm := (entryTerm eng n idx).getD n.laTerm, kv := n.kv, terms := n.terms }
+  { labelIdx := idx, labelTerm := (entryTerm eng n idx).getD n.laTerm, kv := n.kv, terms := n.terms,
+    lease := n.lease }
 
-/-- `apply_snapshot_from_file`: state := snapshot, `last_applied := label`. -/
-def install (_old : Node) (s : Snapshot) : Node :=
-  { kv := s.kv, terms := s.terms, la := s.labelIdx, laTerm := s.labelTerm }
+/-- `TtlLease::reload` at `now`. -/
+def reloadLease (l : AMap) (now : Nat) : AMap := l.filter fun p => now < p.2
+
+/-- `apply_snapshot_from_file`: full state (contents AND lease table) := snapshot, `last_applied := label`. -/
+def install (old : Node) (s : Snapshot) : Node :=
+  { kv := s.kv, terms := s.terms, la := s.labelIdx, laTerm := s.labelTerm,
+    lease := reloadLease s.lease old.now, now := old.now }
+
+/-- `adv` seconds later `lease_background_cleanup` runs: due keys leave the contents and the table. -/
+def cleanupAfter (n : Node) (adv : Nat) : Node :=
+  let now := n.now + adv
+  let due := (n.lease.filter fun p => p.2 ≤ now).map (·.1)
+  { n with kv := eraseAll n.kv due, lease := n.lease.filter (fun p => now < p.2), now := now }
 
 /-- Follower/learner after install: the leader sets `next_index := label + 1`, the node appends and applies
 entries `label+1 ..`.  (A snapshot that is not ahead of the node is installed all the same: the attempt
